@@ -75,6 +75,13 @@ fn all_kinds() -> Vec<(&'static str, Value)> {
     for f in gs::INT_FORMATS {
         kinds.push(("int-format", json!({"type": "integer", "format": f})));
     }
+    // constrained strings are drawn more often (their defaults have the most ways to be wrong)
+    for (lo, hi) in [(0u64, 3u64), (1, 1), (3, 8)] {
+        kinds.push(("string-constrained", json!({"type": "string", "minLength": lo, "maxLength": hi})));
+    }
+    kinds.push(("string-constrained", json!({"type": "string", "minLength": 4})));
+    kinds.push(("string-constrained", json!({"type": "string", "maxLength": 5})));
+    kinds.push(("newtype-ref", json!({"$ref": "#/definitions/AuxShort"})));
     kinds
 }
 
@@ -103,7 +110,16 @@ pub fn gen_c06_case(g: &mut G) -> Value {
     if formatted {
         gen::excluded("invalid-default-on-formatted-string", 1);
     }
-    let (d, flavour) = if formatted || g.chance(3, 5) {
+    // length-constrained strings: defaults at the bounds +-1, counted in Unicode
+    // scalar values, built from 1-4 byte characters (byte length != scalar count)
+    let resolved = if let Some(r) = s.get("$ref").and_then(|r| r.as_str()) { doc_for_inst.pointer(&r[1..]).cloned().unwrap_or(Value::Null) } else { s.clone() };
+    let bounds: Vec<u64> = ["minLength", "maxLength"].iter().filter_map(|k| resolved.get(*k).and_then(|v| v.as_u64())).collect();
+    let (d, flavour) = if !bounds.is_empty() && g.chance(2, 3) {
+        let b = *g.pick(&bounds);
+        let n = *g.pick(&[b.saturating_sub(1), b, b + 1]);
+        let c = *g.pick(&['a', 'é', '名', '\u{1F600}']);
+        (json!(std::iter::repeat(c).take(n as usize).collect::<String>()), "length-boundary")
+    } else if formatted || g.chance(3, 5) {
         (valid, "valid-by-construction")
     } else {
         let ms = mutants_opt(g, &valid, 6, true);
